@@ -13,6 +13,11 @@
 //   case <nthreads> <limit> <spin> <flags>   flags&1: register the hook and take stamps (otherwise
 //                                            nothing of the harness synchronises the threads: pure
 //                                            ThreadSanitizer mode); flags&2: yield between operations
+//                                            flags&4: handle operations use real booster::intrusive_ptr copies / resets
+//                                            (their results are not recorded; a premature destruction really happens)
+//   T <tid> addref | delref                  copy / drop a handle to the cache (intrusive_ptr_add_ref / del_ref()+delete):
+//                                            main owns one handle for the whole case; at the end main drops it (recorded as
+//                                            a `delref` of tid nthreads) — that del_ref() must be the one returning true
 //   T <tid> <op>        op (C07 syntax): store <now> <key> <val> <trig,..|-> <deadline> <gen|->
 //                                        fetch <now> <key> | rise <trig> | remove <key> | clear | stats
 //   I <op>              prologue operation, run by the main thread before the threads are started (tid = nthreads+1)
@@ -46,7 +51,7 @@ using cppcms::impl::base_cache;
 
 struct op_t {
 	std::string text;		// the op words, echoed
-	int kind;			// 0 store 1 fetch 2 rise 3 remove 4 clear 5 stats
+	int kind;			// 0 store 1 fetch 2 rise 3 remove 4 clear 5 stats 6 addref 7 delref
 	time_t now;
 	std::string key,val;
 	std::set<std::string> trigs;
@@ -114,13 +119,35 @@ static bool parse_op(std::vector<std::string> const &w,size_t from,op_t &o)
 	if(c=="remove" && n==2) { o.kind=3; return vh::unhex(w[from+1],o.key); }
 	if(c=="clear" && n==1) { o.kind=4; return true; }
 	if(c=="stats" && n==1) { o.kind=5; return true; }
+	if(c=="addref" && n==1) { o.kind=6; return true; }
+	if(c=="delref" && n==1) { o.kind=7; return true; }
 	return false;
 }
+
+// handles: main owns one for the whole case; g_live = handles the harness knows to be alive besides main's
+static std::atomic<long> g_live(0);
+static std::atomic<long> g_premature(0);
+static bool g_raw_handles=false;
+static thread_local std::vector<booster::intrusive_ptr<base_cache> > *tl_handles=0;
 
 static void exec(base_cache &cache,op_t &o)
 {
 	tl_now=o.now;
 	switch(o.kind) {
+	case 6:
+		if(g_raw_handles) { tl_handles->push_back(booster::intrusive_ptr<base_cache>(&cache)); o.result="raw"; }
+		else { cppcms::impl::intrusive_ptr_add_ref(&cache); g_live.fetch_add(1); o.result="added"; }
+		break;
+	case 7:
+		if(g_raw_handles) { if(!tl_handles->empty()) tl_handles->pop_back(); o.result="raw"; }
+		else {
+			long others=g_live.fetch_sub(1)-1;
+			bool last=cache.del_ref();	// what intrusive_ptr_release does; `delete` is withheld so that the run can be reported
+			if(last) g_premature.fetch_add(1);
+			(void)others;
+			o.result=last?"dropped 1":"dropped 0";
+		}
+		break;
 	case 0:
 		if(o.has_gen) cache.store(o.key,o.val,o.trigs,o.deadline,&o.gen);
 		else cache.store(o.key,o.val,o.trigs,o.deadline);
@@ -149,6 +176,8 @@ static void worker(base_cache *cache,std::vector<op_t> *ops,int nthreads,unsigne
 {
 	vh::rng r(seed);
 	tl_rng=&r;
+	std::vector<booster::intrusive_ptr<base_cache> > handles;
+	tl_handles=&handles;
 	g_ready.fetch_add(1);
 	while(g_go.load()==0) { }	// start together
 	(void)nthreads;
@@ -168,6 +197,8 @@ static void worker(base_cache *cache,std::vector<op_t> *ops,int nthreads,unsigne
 		}
 	}
 	tl_rng=0;
+	handles.clear();
+	tl_handles=0;
 }
 
 static volatile unsigned long g_caseno=0;
@@ -216,7 +247,10 @@ int main()
 			progs[nthreads].push_back(o);
 		}
 		else if(w[0]=="run") {
-			booster::intrusive_ptr<base_cache> cache=cppcms::impl::thread_cache_factory(limit);
+			// main's handle, owned by hand so that the final del_ref() can be observed: refs == 1 from here on
+			base_cache *cache_raw=cppcms::impl::thread_cache_factory(limit).release();
+			struct raw_ptr { base_cache *p; base_cache *get() const { return p; } base_cache *operator->() const { return p; } } cache={cache_raw};
+			g_live.store(0); g_premature.store(0); g_raw_handles=(flags&4)!=0;
 			g_clock.store(1); g_ready.store(0); g_go.store(0);
 			cppcms_verif_cache_hook = (flags&1) ? hook_cb : 0;
 			std::cout.flush();
@@ -234,6 +268,11 @@ int main()
 			// epilogue: single-threaded, makes the final state (values, counters, LRU order via evictions) observable
 			g_ready.store(0);
 			worker(cache.get(),&progs[nthreads],1,flags&1,caseno*1000003ull+99991ull);
+			// main drops its handle: this del_ref() — and no earlier one — must report that the count reached zero
+			uint64_t f_inv=(flags&1)?g_clock.fetch_add(1):0;
+			{ unsigned k=0,tg=0; cache->stats(k,tg); std::cout<<"F "<<k<<" "<<tg<<"\n"; }
+			bool final_last=cache_raw->del_ref();
+			uint64_t f_res=(flags&1)?g_clock.fetch_add(1):0;
 			alarm(0);
 			cppcms_verif_cache_hook=0;
 			for(int t=0;t<=nthreads+1;t++) {
@@ -242,6 +281,7 @@ int main()
 					std::cout<<"R "<<t<<" "<<i<<" "<<o.inv<<" "<<o.res<<" ";
 					if(o.hooks>0) std::cout<<o.lin; else std::cout<<"-";
 					std::cout<<" "<<o.result<<" ; "<<o.text<<"\n";
+					if(o.kind>=6) continue;		// handle operations: no hook in add_ref/del_ref
 					if((flags&1) && o.hooks!=1) std::cout<<"E hook fired "<<o.hooks<<" times in "<<t<<"/"<<i<<" "<<o.text<<"\n";
 					if((flags&1) && o.hooks==1) {
 						// the hook point must fit the operation: 1/2 fetch, 3 rise, 4 clear, 5 stats, 6 remove, 7 store (6 too: copy failure path)
@@ -252,11 +292,13 @@ int main()
 					}
 				}
 			}
-			// quiescent final state: stats once more, single-threaded
-			{ unsigned k=0,tg=0; cache->stats(k,tg); std::cout<<"F "<<k<<" "<<tg<<"\n"; }
+			std::cout<<"R "<<nthreads<<" "<<progs[nthreads].size()<<" "<<f_inv<<" "<<f_res<<" - dropped "<<(final_last?1:0)<<" ; delref\n";
+			if(g_premature.load()) std::cout<<"E del_ref() returned true "<<g_premature.load()<<" time(s) while main still held its handle: the cache would have been destroyed under its users\n";
+			if(!final_last) std::cout<<"E final del_ref() of the last handle returned false: reference count does not equal the number of live handles\n";
+			if(g_live.load()!=0) std::cout<<"E harness: unbalanced handle program ("<<g_live.load()<<")\n";
 			std::cout<<"end\n";
 			std::cout.flush();
-			cache=0;
+			if(final_last && !g_premature.load()) delete cache_raw;
 		}
 		else std::cout<<"E bad-line "<<line<<"\n";
 	}
